@@ -249,6 +249,12 @@ for _ in range(3 if Q else 20):
 
 samples = [{k: meta[i][k] for k in ("path", "vel", "legs", "thetas", "impl", "model_beamspread", "spec_tube_amplitude")}
            for i in range(0, len(meta), max(1, len(meta) // 4))][:4]
+# ---- the glue model of the public functions (Model files added later, see manifest text) tied to the library on every run:
+#      inputs generated here, the library run on them, the model evaluated on the same inputs by vm_compute inside coqc
+import ties.tie_C06 as _tie_glue  # noqa: E402
+_tie_n = _tie_glue.run(chk, arim, rng, Q)
+chk.cov["glue_model_tie_comparisons"] = int(_tie_n or 0)
+
 chk.finish(
     evaluations=len(meta) + nscale + len(se_meta) + len(ws_meta) + 2 * (36000 if Q else 106000),
     distinct_nontrivial=len(nontrivial),
